@@ -25,7 +25,7 @@ SPEC = {
              "(exact canonical form n<=7, else refinement fingerprint) with >=3 atoms and >=1 bond"),
     "assumptions": ["relabelling applied by the harness: same molecule by construction", "molecules <= 120 atoms get shadow calls; larger ones are counted as skipped"],
     "monitors_required": ["c04_shadow_compare", "c04_trace_compare", "c04_exhaustive_class_compare"],
-    "required_obs": {"quick": ["shadow_inputs_with_noncontiguous_labels", "cov_foreign_attributes_with_common_names", "shadow_inputs_with_stale_partition", "shadow_inputs_relabelled_canonical_graph", "cov_multi_component", "cov_isotope_and_radical_on_one_atom", "cov_symmetric_partial_orbit", "cov_text_route_variant", "cov_corpus"]},
+    "required_obs": {"quick": ["cov_debug_logging_enabled", "shadow_inputs_with_noncontiguous_labels", "cov_foreign_attributes_with_common_names", "shadow_inputs_with_stale_partition", "shadow_inputs_relabelled_canonical_graph", "cov_multi_component", "cov_isotope_and_radical_on_one_atom", "cov_symmetric_partial_orbit", "cov_text_route_variant", "cov_corpus"]},
     "watchdog_s": {"quick": 900, "thorough": 3600},
 }
 PLAN = {
